@@ -23,6 +23,7 @@ CONSTANTS H,          \* descriptor handles of the model universe
           Removable,  \* handles the drivers may delete (leaves whose real parent is outside the universe are not)
           Tok,        \* content tokens
           BeginKinds, \* transaction kinds the drivers may open
+          OtherMds,   \* handles that the two-MDS concretisation places in the second MDS (situation labels only)
           KeepH,      \* handles whose entity the application may keep across transactions
           TrackH,     \* the handle whose life-cycle is tracked by trk (test purposes), "none" = no tracking
           MaxTx, MaxOps
@@ -101,9 +102,16 @@ Fan(h) == IF ~m.D[h].present THEN 0 ELSE IF Kind[h] = "ctx" THEN Cap2(NCtx(h)) E
 SameD(t, d) == Cap2(Cardinality({i \in 1..Len(t.c) : t.c[i].d = d}))
 \* how many descriptor versions the kept entity is behind when it is written
 Behind(h) == Cap2(m.D[h].ver - keptv)
+\* in which order the states of a transaction belong to the two MDS of the two-MDS concretisation (runs compressed):
+\* reports are grouped by MDS, "ABA" is the order in which a grouping that only looks at neighbours goes wrong
+RECURSIVE MdsPat(_, _)
+MdsPat(s, last) == IF s = <<>> THEN ""
+                   ELSE LET x == IF Head(s).h \in OtherMds THEN "B" ELSE "A"
+                        IN (IF x = last THEN "" ELSE x) \o MdsPat(Tail(s), x)
 SitOf(t, how) ==
   {"T:" \o t.kind \o ":" \o how \o ":" \o (IF t.rej = 1 THEN "rej" ELSE "-")
         \o ":" \o (IF t.d = <<>> /\ t.s = <<>> /\ t.c = <<>> THEN "empty" ELSE "-")}
+  \cup (IF t.s # <<>> /\ how = "commit" THEN {"M:" \o t.kind \o ":" \o MdsPat(t.s, "")} ELSE {})
   \cup (IF t.kb >= 0 THEN {"K:" \o t.kind \o ":behind" \o ToString(t.kb) \o ":" \o how} ELSE {})
   \cup {"D:" \o t.d[i].op \o ":" \o Kind[t.d[i].h] \o ":" \o ToString(Fan(t.d[i].h)) \o ":" \o how : i \in 1..Len(t.d)}
   \cup {"S:" \o t.s[i].op \o ":" \o t.s[i].via \o ":" \o Kind[t.s[i].h] \o ":" \o t.kind \o ":" \o how : i \in 1..Len(t.s)}
